@@ -1,5 +1,402 @@
-"""(stub)"""
+"""A-DUCK: assumed contracts of the DuckDB 1.0 python API calls made by fakesnow (DESIGN 3.4 / Appendix C).
+
+Ghost state of one DuckDB instance (shared by all its cursors):
+    $cats    : String -> Bool             attached catalogs, keyed by UPPER-cased name (DuckDB resolves names case-insensitively)
+    $schemas : String -> String -> Bool   schemas per catalog, both UPPER-cased
+    $files   : String -> String           backing file of a catalog ('' unknown)
+    $boot    : String -> Bool             catalog has fakesnow's info-schema extension objects;  $macros likewise
+and per DuckDB connection object c:
+    $search  : Int -> String              current 'CATALOG.SCHEMA' (upper) of connection c  ('' = instance default)
+    $dlast   : Int -> Int                 id of the result of the last statement executed on c
+    $closed  : Int -> Bool
+plus the trace of statements executed in this call:  $trace_n : Int,  $trace : Int -> String  (sql text),
+$trace_c : Int -> Int (connection).
+
+SQL text is matched *syntactically* against the templates below (whitespace-normalised f-string skeleton); a statement
+that matches no template gets the generic contract (may raise any duckdb.Error; on success appends to the trace and
+gives a new unknown result; catalog ghosts unchanged only if the caller's contract says so -- it is havocked here).
+"""
+from __future__ import annotations
+
+import re
+
+import z3
+
+from pyvc.sorts import B, CLS, I, NONE, S, UPPER, V, mkb, mki, mkr, mks
+from pyvc.state import Val, fresh_name
+from pyvc.types import DictT, ListT, NoneType, Opt, TupleT
+from pyvc.world import ClassSchema, SpecFun, Unsupported
+
+A = "A-DUCK (DuckDB 1.0: execute/fetchone/fetchall/fetch_arrow_table/cursor/close; ATTACH, CREATE SCHEMA, SET schema, information_schema.schemata queries mean what their text says; errors are duckdb.Error subclasses; DML result is one row holding the affected-row count)"
+
+SS = z3.ArraySort(S, B)
+SSS = z3.ArraySort(S, z3.ArraySort(S, B))
+S2S = z3.ArraySort(S, S)
+IS = z3.ArraySort(I, S)
+II = z3.ArraySort(I, I)
+IB = z3.ArraySort(I, B)
+
+GHOSTS = {
+    "$cats": SS,
+    "$schemas": SSS,
+    "$files": S2S,
+    "$boot": SS,
+    "$macros": SS,
+    "$search": IS,
+    "$dlast": II,
+    "$closed": IB,
+    "$trace_n": I,
+    "$trace": IS,
+    "$trace_c": II,
+}
+
+RES_NONEMPTY = z3.Function("duck_res_nonempty", I, B)
+RES_COUNT = z3.Function("duck_res_count", I, V)  # first column of first row
+RES_TABLE = z3.Function("duck_res_table", I, I)  # arrow table id
+RES_ROWS_N = z3.Function("duck_res_nrows", I, I)
+RES_KIND = z3.Function("duck_res_kind", I, I)  # 0 unknown, 1 dml-count
+
+
+def ghost(st, name):
+    g = st.ghost.get(name)
+    if g is None:
+        srt = GHOSTS[name]
+        g = z3.Const(f"G0_{name}", srt)
+        st.ghost[name] = g
+    return g
+
+
+def norm_sql(parts):
+    """-> (signature with {} holes, [hole Vals]) or None when the text is not built from literal pieces"""
+    if parts is None:
+        return None
+    sig = ""
+    holes = []
+    for p in parts:
+        if isinstance(p, str):
+            sig += p
+        elif isinstance(p, Val):
+            if p.parts is not None and all(isinstance(x, str) for x in p.parts):
+                sig += "".join(p.parts)
+            else:
+                sig += "{}"
+                holes.append(p)
+        else:
+            return None
+    sig = re.sub(r"\s+", " ", sig).strip()
+    return sig, holes
 
 
 def install(w):
-    pass
+    import duckdb
+
+    H = w.handlers
+    Conn = duckdb.DuckDBPyConnection
+    w.schemas[Conn] = ClassSchema(Conn, fields={})
+    w.ghost_sorts.update(GHOSTS)
+
+    def trace_append(st, sql_term, conn_id):
+        n = ghost(st, "$trace_n")
+        st.ghost["$trace"] = z3.Store(ghost(st, "$trace"), n, sql_term)
+        st.ghost["$trace_c"] = z3.Store(ghost(st, "$trace_c"), n, conn_id)
+        st.ghost["$trace_n"] = n + 1
+
+    def new_result(ex, st, cid):
+        r = ex.fresh("duckres", I)
+        st.ghost["$dlast"] = z3.Store(ghost(st, "$dlast"), cid, r)
+        return r
+
+    def raise_duck(ex, st, cond, cls, node, msg=None):
+        """conditional raise of a DuckDB exception whose args[0] is a message string"""
+        cs = z3.simplify(cond)
+        if z3.is_false(cs):
+            return
+        r = st.fork()
+        r.assume(cs)
+        e = ex.new_object(r, cls)
+        m = ex.fresh("duckmsg", S) if msg is None else msg
+        tup = ex.new_seq_lit(r, tuple, [Val(mks(m), str)])
+        r.heap["$exc_args"] = z3.Store(r.arr("$exc_args"), V.rid(e.t), tup.t)
+        r.heap["$exc_str"] = z3.Store(r.arr("$exc_str"), V.rid(e.t), mks(m))
+        ex.raise_exc(r, e, node)
+        st.assume(z3.Not(cs))
+
+    w.raise_duck = raise_duck
+    U = lambda v: v  # names reaching the templates are already upper-cased by the caller or are compared upper-cased
+
+    def up(ex, st, v):
+        from pyvc.pybuiltins import upper_of
+
+        return upper_of(ex.as_str(st, v))
+
+    # ------------------------------------------------------------------ templates
+    def t_exists_catalog(ex, st, cid, holes, node):
+        (d,) = holes
+        r = new_result(ex, st, cid)
+        st.assume(RES_NONEMPTY(r) == ghost(st, "$cats")[ex.as_str(st, d)])
+
+    def t_exists_schema(ex, st, cid, holes, node):
+        d, s_ = holes
+        r = new_result(ex, st, cid)
+        D, S_ = ex.as_str(st, d), ex.as_str(st, s_)
+        st.assume(RES_NONEMPTY(r) == z3.And(ghost(st, "$cats")[D], ghost(st, "$schemas")[D][S_]))
+
+    def t_attach(ex, st, cid, holes, node):
+        f, d = holes
+        D = up(ex, st, d)
+        cats = ghost(st, "$cats")
+        raise_duck(ex, st, cats[D], duckdb.BinderException, node)  # already attached
+        st.ghost["$cats"] = z3.Store(cats, D, z3.BoolVal(True))
+        sch = ghost(st, "$schemas")
+        st.ghost["$schemas"] = z3.Store(sch, D, z3.Store(z3.Store(z3.K(S, z3.BoolVal(False)), z3.StringVal("MAIN"), z3.BoolVal(True)), z3.StringVal("INFORMATION_SCHEMA"), z3.BoolVal(True)))
+        st.ghost["$files"] = z3.Store(ghost(st, "$files"), D, ex.as_str(st, f))
+        st.ghost["$boot"] = z3.Store(ghost(st, "$boot"), D, z3.BoolVal(False))
+        st.ghost["$macros"] = z3.Store(ghost(st, "$macros"), D, z3.BoolVal(False))
+        new_result(ex, st, cid)
+
+    def t_create_schema(ex, st, cid, holes, node):
+        d, s_ = holes
+        D, S_ = up(ex, st, d), up(ex, st, s_)
+        cats, sch = ghost(st, "$cats"), ghost(st, "$schemas")
+        raise_duck(ex, st, z3.Not(cats[D]), duckdb.BinderException, node)  # catalog does not exist
+        raise_duck(ex, st, sch[D][S_], duckdb.CatalogException, node)  # schema already exists
+        st.ghost["$schemas"] = z3.Store(sch, D, z3.Store(sch[D], S_, z3.BoolVal(True)))
+        new_result(ex, st, cid)
+
+    def t_set_schema(ex, st, cid, holes, node):
+        d, s_ = holes
+        D, S_ = up(ex, st, d), up(ex, st, s_)
+        cats, sch = ghost(st, "$cats"), ghost(st, "$schemas")
+        raise_duck(ex, st, z3.Not(z3.And(cats[D], sch[D][S_])), duckdb.CatalogException, node)
+        st.ghost["$search"] = z3.Store(ghost(st, "$search"), cid, z3.Concat(D, z3.StringVal("."), S_))
+        new_result(ex, st, cid)
+
+    def t_set_schema_main(ex, st, cid, holes, node):
+        (d,) = holes
+        return t_set_schema(ex, st, cid, [d, w.const("main")], node)
+
+    def t_timezone(ex, st, cid, holes, node):
+        new_result(ex, st, cid)
+
+    TEMPLATES = {
+        "select * from information_schema.schemata where upper(catalog_name) = '{}'": t_exists_catalog,
+        "select * from information_schema.schemata where upper(catalog_name) = '{}' and upper(schema_name) = '{}'": t_exists_schema,
+        "ATTACH DATABASE '{}' AS {}": t_attach,
+        "CREATE SCHEMA {}.{}": t_create_schema,
+        "SET schema='{}.{}'": t_set_schema,
+        "SET schema='{}.main'": t_set_schema_main,
+        "SET GLOBAL TimeZone = 'UTC'": t_timezone,
+    }
+    w.duck_templates = TEMPLATES
+
+    def sql_tag(v: Val):
+        return getattr(v, "sqltag", None) if False else (v.py[1:] if isinstance(v.py, tuple) and v.py and v.py[0] == "sqltag" else None)
+
+    def m_execute(ex, st, args, kw, node):
+        ex.trusted_used.add(A)
+        conn = args[0]
+        sql = args[1]
+        cid = ex.as_ref(st, conn, node)
+        closed = ghost(st, "$closed")[cid]
+        raise_duck(ex, st, closed, duckdb.ConnectionException, node)
+        sqlt = ex.as_str(st, sql, node)
+        tag = w.sql_tags.get(sql.t.get_id()) if hasattr(w, "sql_tags") else None
+        sig = norm_sql(sql.parts)
+        if tag is not None:
+            kind, dval = tag
+            D = up(ex, st, dval)
+            cats = ghost(st, "$cats")
+            raise_duck(ex, st, z3.Not(cats[D]), duckdb.BinderException, node)
+            g = "$boot" if kind == "info_schema" else "$macros"
+            st.ghost[g] = z3.Store(ghost(st, g), D, z3.BoolVal(True))
+            new_result(ex, st, cid)
+        elif sig is not None and sig[0] in TEMPLATES:
+            TEMPLATES[sig[0]](ex, st, cid, sig[1], node)
+        else:
+            if ex.contract is not None and ex.contract.locals.get("$sql_templates_only"):
+                # the contract of this function interprets its SQL through the A-DUCK templates; other text cannot be
+                # judged deductively (out of reach, decided by the bounded tier) -- never turned into an alarm here
+                raise Unsupported("SQL text handed to DuckDB matches no A-DUCK template: " + (sig[0][:80] if sig else "<not a literal skeleton>"), node)
+            # generic statement: may fail with any DuckDB error; may change the catalog
+            fails = ex.fresh("duck_fails", B)
+            r = st.fork()
+            r.assume(fails)
+            e = ex.new_object(r, None, duckdb.Error)
+            r.assume(w.classes.isa(CLS(V.rid(e.t)), duckdb.Error))
+            m = ex.fresh("duckmsg", S)
+            tup = ex.new_seq_lit(r, tuple, [Val(mks(m), str)])
+            r.heap["$exc_args"] = z3.Store(r.arr("$exc_args"), V.rid(e.t), tup.t)
+            r.heap["$exc_str"] = z3.Store(r.arr("$exc_str"), V.rid(e.t), mks(m))
+            # a failed statement changes nothing in DuckDB (statement-level atomicity, A-DUCK)
+            ex.raise_exc(r, e, node)
+            st.assume(z3.Not(fails))
+            for g in ("$cats", "$schemas", "$files", "$boot", "$macros"):
+                st.ghost[g] = ex.fresh(f"g_{g}", GHOSTS[g])
+            st.ghost["$search"] = z3.Store(ghost(st, "$search"), cid, ex.fresh("search", S))
+            new_result(ex, st, cid)
+        trace_append(st, sqlt, cid)
+        return conn
+
+    H["duckdb.duckdb.DuckDBPyConnection.execute"] = m_execute
+
+    def m_fetchone(ex, st, args, kw, node):
+        ex.trusted_used.add(A)
+        cid = ex.as_ref(st, args[0], node)
+        r = ghost(st, "$dlast")[cid]
+        row = ex.new_object(st, tuple, TupleT(elem=None))
+        st.heap["$len"] = z3.Store(st.arr("$len"), V.rid(row.t), ex.fresh("ncols", I))
+        st.assume(st.arr("$len")[V.rid(row.t)] >= 1)  # a result row has at least one column
+        return Val(z3.If(RES_NONEMPTY(r), row.t, NONE), Opt(TupleT(elem=None)))
+
+    H["duckdb.duckdb.DuckDBPyConnection.fetchone"] = m_fetchone
+
+    def m_fetchall(ex, st, args, kw, node):
+        """rows of the last result; for a DML statement exactly one row with one column: the affected count (A-DUCK 2)"""
+        ex.trusted_used.add(A)
+        cid = ex.as_ref(st, args[0], node)
+        r = ghost(st, "$dlast")[cid]
+        n = RES_ROWS_N(r)
+        st.assume(n >= 0)
+        rowid = z3.Function(fresh_name("duckrow"), I, I)
+        j, j2 = z3.Ints(fresh_name("fr") + " " + fresh_name("fr2"))
+        a1 = ex.alloc_term(st)
+        ex.bump_alloc(st)
+        a2 = ex.alloc_term(st)
+        rng = z3.And(j >= 0, j < n)
+        st.assume(z3.ForAll([j], z3.Implies(rng, z3.And(rowid(j) >= a1, rowid(j) < a2, CLS(rowid(j)) == w.classes.cid(tuple)))))
+        st.assume(z3.ForAll([j, j2], z3.Implies(z3.And(rng, j2 >= 0, j2 < n, j != j2), rowid(j) != rowid(j2))))
+        # new length/element arrays for the fresh row tuples
+        o = z3.Int(fresh_name("fo"))
+        for nm in ("$len", "$el"):
+            old = st.arr(nm)
+            new = ex.fresh(f"H_{nm}", old.sort())
+            st.assume(z3.ForAll([o], z3.Implies(o < a1, new[o] == old[o])))
+            st.heap[nm] = new
+        # DML result: one row, one column holding the count
+        dml = RES_KIND(r) == 1
+        st.assume(z3.Implies(dml, z3.And(n == 1, st.heap["$len"][rowid(0)] == 1, st.heap["$el"][rowid(0)][0] == RES_COUNT(r), V.is_i(RES_COUNT(r)), V.ival(RES_COUNT(r)) >= 0)))
+        return ex.new_seq(st, list, n, z3.Lambda([j], mkr(rowid(j))), elem=TupleT(elem=None))
+
+    H["duckdb.duckdb.DuckDBPyConnection.fetchall"] = m_fetchall
+
+    def m_fetch_arrow_table(ex, st, args, kw, node):
+        import pyarrow as pa
+
+        from .externs_arrow import TBL_NROWS, wf_table
+
+        ex.trusted_used.add(A)
+        cid = ex.as_ref(st, args[0], node)
+        r = ghost(st, "$dlast")[cid]
+        t = ex.new_object(st, pa.Table)
+        tid = V.rid(t.t)
+        st.assume(RES_TABLE(r) == tid) if False else None
+        st.assume(wf_table(tid))
+        st.assume(TBL_NROWS(tid) == RES_ROWS_N(r))
+        return t
+
+    H["duckdb.duckdb.DuckDBPyConnection.fetch_arrow_table"] = m_fetch_arrow_table
+
+    DUCK_PARENT = z3.Function("duck_parent", I, I)
+
+    def m_cursor(ex, st, args, kw, node):
+        """a new connection object on the same instance with its own search path and transaction (A-DUCK 4)"""
+        ex.trusted_used.add(A)
+        cid = ex.as_ref(st, args[0], node)
+        c = ex.new_object(st, Conn)
+        nid = V.rid(c.t)
+        st.assume(DUCK_PARENT(nid) == cid)
+        st.ghost["$closed"] = z3.Store(ghost(st, "$closed"), nid, z3.BoolVal(False))
+        st.ghost["$search"] = z3.Store(ghost(st, "$search"), nid, z3.StringVal(""))
+        return c
+
+    H["duckdb.duckdb.DuckDBPyConnection.cursor"] = m_cursor
+
+    def m_close(ex, st, args, kw, node):
+        ex.trusted_used.add(A)
+        cid = ex.as_ref(st, args[0], node)
+        st.ghost["$closed"] = z3.Store(ghost(st, "$closed"), cid, z3.BoolVal(True))
+        return Val(NONE, NoneType)
+
+    H["duckdb.duckdb.DuckDBPyConnection.close"] = m_close
+
+    # str(duckdb exception) == its message
+    def exc_str(ex, st, args, kw, node):
+        oid = ex.as_ref(st, args[0], node)
+        return Val(st.arr("$exc_str")[oid], str)
+
+    w.exc_str = exc_str
+
+    # ---------------------------------------------------------------------- spec functions
+    def sf(name):
+        def deco(f):
+            w.specfuns[name] = SpecFun(name, f)
+            return f
+
+        return deco
+
+    @sf("cat_exists")
+    def _cat_exists(ex, st, args):
+        return Val(mkb(ghost(st, "$cats")[V.sval(args[0].t)]), bool)
+
+    @sf("schema_exists")
+    def _schema_exists(ex, st, args):
+        D, S_ = V.sval(args[0].t), V.sval(args[1].t)
+        return Val(mkb(z3.And(ghost(st, "$cats")[D], ghost(st, "$schemas")[D][S_])), bool)
+
+    @sf("cats_same_except")
+    def _cats_same_except(ex, st, args):
+        """catalog set now == catalog set before, except possibly for name args[0]"""
+        pre = ex.spec.old
+        x = z3.String(fresh_name("cx"))
+        return Val(mkb(z3.ForAll([x], z3.Implies(x != V.sval(args[0].t), ghost(st, "$cats")[x] == ghost(pre, "$cats")[x]))), bool)
+
+    @sf("schemas_same_except")
+    def _schemas_same_except(ex, st, args):
+        pre = ex.spec.old
+        x, y = z3.String(fresh_name("sx")), z3.String(fresh_name("sy"))
+        D, S_ = V.sval(args[0].t), V.sval(args[1].t)
+        return Val(
+            mkb(
+                z3.ForAll(
+                    [x, y],
+                    z3.Implies(
+                        z3.And(ghost(pre, "$cats")[x], z3.Not(z3.And(x == D, y == S_))),
+                        ghost(st, "$schemas")[x][y] == ghost(pre, "$schemas")[x][y],
+                    ),
+                )
+            ),
+            bool,
+        )
+
+    @sf("search_of")
+    def _search_of(ex, st, args):
+        return Val(mks(ghost(st, "$search")[V.rid(args[0].t)]), str)
+
+    @sf("duck_closed")
+    def _duck_closed(ex, st, args):
+        return Val(mkb(ghost(st, "$closed")[V.rid(args[0].t)]), bool)
+
+    @sf("file_of")
+    def _file_of(ex, st, args):
+        return Val(mks(ghost(st, "$files")[V.sval(args[0].t)]), str)
+
+    @sf("bootstrapped")
+    def _bootstrapped(ex, st, args):
+        D = V.sval(args[0].t)
+        return Val(mkb(z3.And(ghost(st, "$boot")[D], ghost(st, "$macros")[D])), bool)
+
+    @sf("trace_len")
+    def _trace_len(ex, st, args):
+        return Val(mki(ghost(st, "$trace_n")), int)
+
+    @sf("trace_at")
+    def _trace_at(ex, st, args):
+        return Val(mks(ghost(st, "$trace")[ex.as_int(st, args[0])]), str)
+
+    @sf("trace_conn_at")
+    def _trace_conn_at(ex, st, args):
+        return Val(mkr(ghost(st, "$trace_c")[ex.as_int(st, args[0])]), None)
+
+    @sf("duck_parent")
+    def _duck_parent(ex, st, args):
+        return Val(mkr(DUCK_PARENT(V.rid(args[0].t))), None)
